@@ -119,6 +119,26 @@ def l2l1_mutant():
     print("%-70s %s" % ("L2 |= L1: refill pushes to the front -> a simulated L2 behaviour is rejected", "refuted as expected" if hit else "NOT REFUTED  <-- self-test failure"))
     ok_all &= hit
 l2l1_mutant()
+# ---- SignalHB: every memory ordering of the hand-off protocol is needed (weakening any one of them is refuted)
+def signalhb_matrix():
+    global ok_all
+    for o in ("RelCasK", "AcqFailK", "RelStoreK", "RelCasW", "AcqFailW", "AcqFence", "AcqParkLoad", "AcqTimedLoad", "UnlockRel", "LockAcq",
+              "RegisterUnderLock"):
+        hit = False
+        for k in ("sync", "timed", "async"):
+            for sd in ("send", "recv"):
+                fresh_spec()
+                c = os.path.join(SP, "MC_SignalHB_%s_%s.cfg" % (k, sd))
+                t = open(c).read()
+                open(c, "w").write(t.replace("  %s = TRUE" % o, "  %s = FALSE" % o))
+                if "Invariant NoRace is violated" in tlc("SignalHB", "MC_SignalHB_%s_%s.cfg" % (k, sd), workers=2):
+                    hit = True
+                    break
+            if hit:
+                break
+        print("%-70s %s" % ("SignalHB: %s weakened (NoRace)" % o, "refuted as expected" if hit else "NOT REFUTED  <-- self-test failure"))
+        ok_all &= hit
+signalhb_matrix()
 # ---- L1 mutants
 spec_mutant("KanalAtomic: admission <= (ShapeOK)", "MC_KanalAtomic", "MC_KanalAtomic_2p.cfg", "KanalAtomic.tla",
             "ELSE IF Len(s.ch.buf) < s.ch.cap THEN [k |-> \"buf\"", "ELSE IF Len(s.ch.buf) <= s.ch.cap THEN [k |-> \"buf\"", r"Invariant ShapeOK is violated")
